@@ -621,6 +621,34 @@ def classify(plans: List[Dict[str, Any]], adjs: Optional[List[Any]] = None, rep_
     return [{k for b, k in KF_KEYS.items() if c & b} for c in codes]
 
 
+_CLS_CACHE: Dict[str, Set[str]] = {}
+
+
+def _plan_key(p: Dict[str, Any]) -> str:
+    import json as _json
+    return _json.dumps({k: v for k, v in p.items() if k != "_ren"}, sort_keys=True, default=str)
+
+
+def classify_prefetch(plans: List[Dict[str, Any]], rep_prefix: str = "PlanDefects") -> None:
+    """Evaluate classify_plan for all these plans in one coqc batch and remember the answers (see classify_cached)."""
+    todo, seen = [], set()
+    for p in plans:
+        k = _plan_key(p)
+        if k not in _CLS_CACHE and k not in seen:
+            seen.add(k)
+            todo.append(p)
+    for p, c in zip(todo, classify(todo, rep_prefix=rep_prefix)):
+        _CLS_CACHE[_plan_key(p)] = c
+
+
+def classify_cached(p: Dict[str, Any], rep_prefix: str = "PlanDefects") -> Set[str]:
+    """The known-finding domains (decided in Coq) of one exported plan; one coqc call per plan not seen before."""
+    k = _plan_key(p)
+    if k not in _CLS_CACHE:
+        _CLS_CACHE[k] = classify([p], rep_prefix=rep_prefix)[0]
+    return _CLS_CACHE[k]
+
+
 def python_classify(p: Dict[str, Any]) -> Set[str]:
     from harness.universe import kf_tfs_partial_requirement, kf_framework_roundtrip, kf_tfs_missing
     out = set()
